@@ -54,8 +54,8 @@ def diffuse_design(gc, k):
     return U[:, order]
 
 
-def diffuse_call(gc, U, trig, cosv, pexit, thr, sn, sw):
-    g = make_geom(gc)
+def diffuse_call(gc, U, trig, cosv, pexit, thr, sn, sw, g=None):
+    g = make_geom(gc) if g is None else g
     with np.errstate(all="ignore"):
         g.throw(U.copy())
     n = int(np.sum(g.event_mask))
@@ -87,6 +87,37 @@ def judge_diffuse(gc, U, trig, cosv, pexit, thr, sn, sw):
 
 
 BSHR_BOUND = 0.826
+
+
+def judge_rethrow(gc, k):
+    """ONE geometry object thrown again and again (a design, its reversal, the design again, a shifted design, ...), the
+    integral taken after every throw -- once or twice: each integral follows from the columns of the throw it was
+    taken after (survivor counts stay equal between most throws: nothing may be keyed on the count)."""
+    U = diffuse_design(gc, k)
+    if U is None:
+        return [], 0
+    sh = U.copy()
+    sh[1] = (sh[1] + 0.11) % 1.0
+    g = make_geom(gc)
+    out, n = [], 0
+    for step, (V, twice) in enumerate(((U, False), (U[:, ::-1].copy(), True), (U, False), (sh, False), (U[:, ::-1].copy(), False), (sh, True))):
+        with np.errstate(all="ignore"):
+            g.throw(V.copy())
+            m = int(np.sum(g.event_mask))
+        if m == 0:
+            continue
+        trig = [10.0 + i for i in range(m)]
+        pex = [0.25 + 0.5 * i / m for i in range(m)]
+        for rep in range(2 if twice else 1):
+            n += 1
+            try:
+                r, ref, _, _ = diffuse_call(gc, V, trig, -1.0, pex, 1.0, 1.0, 1.0, g=g)
+            except Exception as ex:
+                return out + [("diffuse_no_exception", f"throw {step} on a re-used geometry object", f"{type(ex).__name__}: {str(ex)[:80]}")], n
+            if not (close(r[0], ref[0]) and close(r[1], ref[1]) and int(r[2]) == ref[2]):
+                out.append(("integral_follows_from_the_current_throw", f"throw {step} (integral {rep}) on a re-used geometry object: {[ref[0], ref[1], ref[2]]}", [float(r[0]), float(r[1]), int(r[2])]))
+                return out, n
+    return out, n
 
 
 def per_event_alphabet_diffuse(cs, thr, reduced):
@@ -309,6 +340,12 @@ def run(ctx):
     gcs = [geom_cfg(525.0, 0.2, 0.3, 7.0, 3.0, 360.0), geom_cfg(33.0, 0.0, 0.0, 2.0, 30.0, 90.0)]
     n1 = 0
     for gi, gc in enumerate(gcs):
+        for k in (1, 2, 3, 5):
+            v, nn = judge_rethrow(gc, k)
+            ctx.tick(nn, ("rethrow", gi, k))
+            for c, e, o in v:
+                ctx.violation(c, {"kind": "rethrow", "gc": gc, "k": k}, e, o)
+    for gi, gc in enumerate(gcs):
         for k in range(1, kmax + 1):
             U = diffuse_design(gc, k)
             if U is None:
@@ -507,6 +544,8 @@ def replay(case):
             return []
         rc, _, _, _ = target_call(args[0], args[1], canon, *args[2:])
         return [] if (close(r[0], rc[0]) and int(r[2]) == int(rc[2])) else [("channel_label_means_its_channel", float(rc[0]), float(r[0]))]
+    if k == "rethrow":
+        return judge_rethrow(case["gc"], case["k"])[0]
     if k == "diffuse":
         return judge_diffuse(case["gc"], np.array(case["U"], dtype=float), case["trig"], case["cos"], case["pexit"], case["thr"], case["sn"], case["sw"])
     if k == "diffuse_perm":
